@@ -26,8 +26,12 @@ def model_runs(ctx):
         raise core.ToolError("MC_OpsOld: TLC did not report the known-overflowing algorithm; model is not sensitive")
 
 
+SBQ = [-128, -127, -64, -1, 0, 1, 2, 7, 63, 64, 126, 127]
+UBQ = [0, 1, 2, 7, 63, 64, 127, 128, 200, 254, 255]
+
+
 def tables(ctx, signed, fn):
-    bset = SB if signed else UB
+    bset = SBQ if signed else UBQ
     full = ctx.tier == "thorough"
     if fn in TERNARY:
         los = "all" if full else ",".join(map(str, bset))
